@@ -1202,35 +1202,41 @@ def main():
                     progs |= {(s, f.name()) for f in info[s]["funcs"].values()}
     # every shipped command-line entry point run into ONE output directory (what a user generating all the C code does):
     # afterwards each set's own file must still hold that set's complete inventory
-    shared = os.path.join(scratch, "main_shared")
-    os.makedirs(shared, exist_ok=True)
-    ran = []
-    for s in MODEL_MODULES:
-        if info[s]["main_artifact"] is None:
-            continue
-        argv = sys.argv
-        try:
-            sys.argv = [info[s]["modname"], shared]
-            with quiet():
-                runpy.run_module(info[s]["modname"], run_name="__main__")
-            ran.append(s)
-        except BaseException:       # noqa: already reported by the extraction step
-            pass
-        finally:
-            sys.argv = argv
-    for s in ran:
-        stem = info[s]["main_stem"]
-        tvd = next(t for t in gen_states if t["set"] == s and not t["passed"])
-        cpath = os.path.join(shared, stem + ".c")
-        if not os.path.exists(cpath):
-            run.violation(f"{s}/inventory/missing:*", f"after running every entry point into one directory {stem}.c does not exist "
-                          f"(files: {sorted(os.listdir(shared))})", {"kind": "main", "set": s})
-            continue
-        art = parse_artifact(cpath, os.path.join(shared, stem + ".h"))
-        check_artifact({**tvd, "kind": "__main__/shared_dir", "file": stem}, art, info[s]["funcs"],
-                       lambda k, w, d_: run.violation(k, w + " [all entry points run into one output directory]", {**d_, "kind": "main", "set": s}),
-                       run.spec_drift)
-        n_art += 1
+    mods = [s for s in MODEL_MODULES if info[s]["main_artifact"] is not None]
+    orders = [("fwd", list(mods)), ("rev", list(reversed(mods)))]
+    if tier == "thorough":
+        orders += [(f"rot{r}", mods[r:] + mods[:r]) for r in range(1, len(mods))] + [(f"rotrev{r}", list(reversed(mods[r:] + mods[:r]))) for r in range(1, len(mods))]
+    ran_total = 0
+    for oname, order in orders:             # spec/Codegen.tla SharedDirOrders: every ordered pair of entry points occurs in both orders
+        shared = os.path.join(scratch, "main_shared_" + oname)
+        os.makedirs(shared, exist_ok=True)
+        ran = []
+        for s in order:
+            argv = sys.argv
+            try:
+                sys.argv = [info[s]["modname"], shared]
+                with quiet():
+                    runpy.run_module(info[s]["modname"], run_name="__main__")
+                ran.append(s)
+            except BaseException:       # noqa: already reported by the extraction step
+                pass
+            finally:
+                sys.argv = argv
+        for s in ran:
+            stem = info[s]["main_stem"]
+            tvd = next(t for t in gen_states if t["set"] == s and not t["passed"])
+            cpath = os.path.join(shared, stem + ".c")
+            if not os.path.exists(cpath):
+                run.violation(f"{s}/inventory/missing:*", f"after running every entry point into one directory (order {order}) {stem}.c does not exist "
+                              f"(files: {sorted(os.listdir(shared))})", {"kind": "main", "set": s, "order": order})
+                continue
+            art = parse_artifact(cpath, os.path.join(shared, stem + ".h"))
+            check_artifact({**tvd, "kind": "__main__/shared_dir", "file": stem}, art, info[s]["funcs"],
+                           lambda k, w, d_: run.violation(k, w + f" [all entry points run into one output directory, order {order}]", {**d_, "kind": "main", "set": s}),
+                           run.spec_drift)
+            n_art += 1
+        ran_total += len(ran)
+    ran = list(range(ran_total))
     run.count("shared_directory_artifacts", len(ran))
     # the artefact written by the module's own __main__ (python -m cyecca.models.<m> <dir>)
     for s in MODEL_MODULES:
